@@ -19,6 +19,9 @@ const prettyPrintValue = (it: unknown): string => {
   if (typeof it === "object") {
     return `Object`;
   }
+  if (typeof it === "bigint") {
+    return `${it}n`;
+  }
   return JSON.stringify(it);
 };
 
